@@ -491,3 +491,12 @@ def p11(ctx):
 
 
 RULES.append(p11)
+
+
+@rule("P12", doc="the usages index, which the re-queue after a class change walks, lists an e-node under EVERY class it refers to — its own class included (C08.W1)")
+def p12(ctx):
+    from . import c08
+    c08.w1(ctx)
+
+
+RULES.append(p12)
